@@ -397,9 +397,93 @@ pub fn genplanned(hi: usize) {
     writeln!(out, "def allPlanned : List RawProg := [{}]", names.join(", ")).unwrap();
 }
 
+/// T9: trees over the PUBLIC algorithm constructors (no Rader / Bluestein node: they divide), depth <= 2 over leaves
+/// Dft / butterflies, composite length <= 72, forward, all three entry points, garbage scratch / output
+pub fn gentrees() {
+    use crate::tree::Tree;
+    let b = |t: Tree| Box::new(t);
+    let leaves: Vec<Tree> = vec![Tree::Bfly(1), Tree::Bfly(2), Tree::Bfly(3), Tree::Bfly(4), Tree::Bfly(5), Tree::Bfly(7), Tree::Bfly(8), Tree::Dft(1), Tree::Dft(3), Tree::Dft(4), Tree::Dft(6)];
+    let mut level1: Vec<Tree> = vec![];
+    for (i, l) in leaves.iter().enumerate() {
+        for (j, r) in leaves.iter().enumerate() {
+            if (i + 2 * j) % 3 != 0 && i != j {
+                continue; // a third of the pairs, plus the squares
+            }
+            level1.push(Tree::MixedRadix(b(l.clone()), b(r.clone())));
+            level1.push(Tree::MixedRadixSmall(b(l.clone()), b(r.clone())));
+            if gcd(l.len(), r.len()) == 1 {
+                level1.push(Tree::GoodThomas(b(l.clone()), b(r.clone())));
+                level1.push(Tree::GoodThomasSmall(b(l.clone()), b(r.clone())));
+            }
+        }
+        level1.push(Tree::Radix4(1, b(l.clone())));
+        level1.push(Tree::Radix4(0, b(l.clone())));
+        level1.push(Tree::Radix3(1, b(l.clone())));
+        level1.push(Tree::Radix3(2, b(l.clone())));
+        level1.push(Tree::RadixN(vec![2, 3], b(l.clone())));
+        level1.push(Tree::RadixN(vec![5], b(l.clone())));
+        level1.push(Tree::RadixN(vec![7, 2], b(l.clone())));
+    }
+    let mut trees: Vec<Tree> = vec![Tree::Dft(0 + 2), Tree::Dft(5), Tree::Dft(9), Tree::Dft(16)];
+    trees.extend(level1.iter().cloned());
+    // depth 2: every 5th level-1 tree under each outer constructor with a small partner
+    for (k, t) in level1.iter().enumerate() {
+        if k % 5 != 0 || t.len() > 24 || t.len() == 0 {
+            continue;
+        }
+        for other in [Tree::Bfly(2), Tree::Bfly(3), Tree::Dft(3)] {
+            trees.push(Tree::MixedRadix(b(t.clone()), b(other.clone())));
+            trees.push(Tree::MixedRadix(b(other.clone()), b(t.clone())));
+            if gcd(t.len(), other.len()) == 1 {
+                trees.push(Tree::GoodThomas(b(other.clone()), b(t.clone())));
+            }
+        }
+        trees.push(Tree::Radix4(1, b(t.clone())));
+        trees.push(Tree::Radix3(1, b(t.clone())));
+        trees.push(Tree::RadixN(vec![2], b(t.clone())));
+    }
+    let stdout = std::io::stdout();
+    let mut out = std::io::BufWriter::new(stdout.lock());
+    let mut seen = std::collections::BTreeSet::new();
+    let mut idx = 0;
+    for t in trees {
+        let n = t.len();
+        if n < 2 || n > 72 || !seen.insert(t.text()) {
+            continue;
+        }
+        // the *Small constructors assert on their inner transforms' scratch: skip what does not construct (checked at f64)
+        if catch(|| t.build::<f64>(FftDirection::Forward)).is_err() {
+            continue;
+        }
+        for entry in 0..3usize {
+            let r = extract_with(n, entry, 1, 0, &|| t.build::<Sym>(FftDirection::Forward));
+            match r {
+                Ok((grid, code, outs)) => {
+                    let body: Vec<String> = code.iter().map(|(o, a, b)| format!("({},{},{})", o, a, b)).collect();
+                    let outs_s: Vec<String> = outs.iter().map(|o| o.to_string()).collect();
+                    writeln!(out, "-- {}\ndef tree{}{} : RawProg := {{ n := {}, grid := {}, inverse := false,\n  code := [{}],\n  outs := [{}] }}\n", t.text(), idx, ["inplace", "oop", "immut"][entry], n, grid, body.join(","), outs_s.join(",")).unwrap();
+                }
+                Err(e) => {
+                    eprintln!("T9 failed closed on {}: {}", t.text(), e);
+                    std::process::exit(3);
+                }
+            }
+        }
+        idx += 1;
+    }
+}
+fn gcd(a: usize, b: usize) -> usize {
+    if b == 0 {
+        a
+    } else {
+        gcd(b, a % b)
+    }
+}
+
 pub fn run(args: &[String]) {
     match args[0].as_str() {
         "gen" => gen(),
+        "gentrees" => gentrees(),
         "genplanned" => genplanned(args[1].parse().unwrap()),
         "k12" => k12(&args[1..]),
         _ => panic!("bfx gen | bfx k12 <count>"),
